@@ -39,10 +39,15 @@ ALPHABET = ['full', 'nothing', 'prefix', 'garbage', 'wrongunit', 'stale_fc', 'la
 
 
 # ------------------------------------------------------------------ case construction
-def recovery_call(rng, cfg, tid, unit=None, t=None):
-    """a call over a healthy transport: the conformant reply (normal or exception) to this request"""
+def recovery_call(rng, cfg, tid, unit=None, t=None, prev=None):
+    """a call over a healthy transport: the conformant reply (normal or exception) to this request; `prev`: execute the request
+    OBJECT of that earlier call again (a polling loop)"""
     u = unit if unit is not None else rng.choice([1, 5, 17, 247, 255] + ([] if cfg['broadcast'] else [0]))
-    c = T.gen_call(rng, cfg, tid, kinds=['full'] if rng.random() < 0.8 else ['exc'], nreact=1, unit=u, t=t)
+    c = None
+    if prev is not None and not (cfg['broadcast'] and prev['unit'] == 0):
+        c = T.again_call(rng, cfg, tid, prev, kinds=['full'] if rng.random() < 0.8 else ['exc'], nreact=1)
+    if c is None:
+        c = T.gen_call(rng, cfg, tid, kinds=['full'] if rng.random() < 0.8 else ['exc'], nreact=1, unit=u, t=t)
     c['expect'] = c['resp'] if c['kinds'] == ['full'] else {'t': 'exception', 'fc': T.FC[c['req']['t']],
                                                             'code': _exc_code(cfg['framer'], c)}
     return c
@@ -68,11 +73,12 @@ def fault_history(rng, cfg=None, ncalls=None):
     calls, tid = [], tid0
     for _ in range(n):
         tid = (tid + 1) & 0xFFFF
-        calls.append(T.gen_call(rng, cfg, tid, kinds=T.REACTION_KINDS if rng.random() < 0.5 else T.FAULT_KINDS,
-                                unit=unit))
+        kinds = T.REACTION_KINDS if rng.random() < 0.5 else T.FAULT_KINDS
+        again = T.again_call(rng, cfg, tid, calls[-1], kinds=kinds) if calls and rng.random() < 0.2 else None
+        calls.append(again if again is not None else T.gen_call(rng, cfg, tid, kinds=kinds, unit=unit))
     tid = (tid + 1) & 0xFFFF
     ru = unit if (unit is not None and not (cfg['broadcast'] and unit == 0)) else None
-    calls.append(recovery_call(rng, cfg, tid, ru))
+    calls.append(recovery_call(rng, cfg, tid, ru, prev=calls[-1] if calls and rng.random() < 0.3 else None))
     return {'cfg': cfg, 'tid0': tid0, 'calls': calls, 'kind': 'fault+recover'}
 
 
